@@ -8,6 +8,9 @@ import LpProofs.C19.Workload
 import LpProofs.C19.Range
 import LpProofs.C19.Closest
 import LpProofs.C19.Stats
+import LpProofs.C19.Space
+import Mathlib.Tactic.IntervalCases
+import Mathlib.Tactic.NormNum
 -- coverage extension: DataPoint ordering operators and std::sort (property theorems in this module)
 import LpProofs.C19.DataPoint
 import Mathlib.Tactic.Ring
@@ -246,6 +249,105 @@ theorem logSpace_spec (exp log : Rat → Rat) (mn mx : Rat) (steps : Nat) (hs : 
 example : ∃ (exp log : Rat → Rat) (mn mx : Rat), mn ≠ mx ∧ exp (log mn) = mn ∧ exp (log mx) = mx ∧
     log (mx / mn) = log mx - log mn ∧ (∀ y, log (exp y) = y) :=
   ⟨id, id, 2, 4, by decide, rfl, rfl, by simp only [id]; norm_num, fun _ => rfl⟩
+
+/-! ### 3b. the repaired `Linear_Space` (overflow guard) and `Log_Space` (two-ended product form) -/
+
+/-- the overflow branch of the repaired `Linear_Space` denotes the same points: the guard only decides
+    how the same rational numbers are computed in `double` -/
+theorem linearSpace_interp_noop (mn mx : Rat) (steps : Nat) :
+    linearSpaceInterp mn mx steps = linearSpace mn mx steps := by
+  unfold linearSpaceInterp linearSpace
+  split
+  · rfl
+  · rename_i h
+    have hs : 2 ≤ steps := by
+      by_contra hc; exact h (Or.inl (by omega))
+    have hs1 : ((steps : Rat) - 1) ≠ 0 := by
+      have : (2 : Rat) ≤ (steps : Rat) := by exact_mod_cast hs
+      intro h0; linarith
+    apply List.map_congr_left
+    intro i _
+    simp only []
+    field_simp
+    ring
+
+/-- repaired `Log_Space`: degenerate requests unchanged -/
+theorem logSpace2_degenerate (exp log : Rat → Rat) (mn mx : Rat) (steps : Nat)
+    (h : steps < 2 ∨ mn = mx) : logSpace2 exp log mn mx steps = [mn] := by
+  unfold logSpace2; rw [if_pos h]
+
+/-- repaired `Log_Space`, `steps ≥ 2`, `min ≠ max`: `steps` points, the first is `min` and the last is
+    `max` **exactly**, needing of `exp` only `exp 0 = 1` (no `exp∘log` round trip any more). -/
+theorem logSpace2_ends (exp log : Rat → Rat) (mn mx : Rat) (steps : Nat) (hs : 2 ≤ steps)
+    (hne : mn ≠ mx) (h0 : exp 0 = 1) :
+    let l := logSpace2 exp log mn mx steps
+    l.length = steps ∧ l[0]? = some mn ∧ l[steps - 1]? = some mx := by
+  intro l
+  have hcond : ¬ (steps < 2 ∨ mn = mx) := by rintro (h | h); omega; exact hne h
+  simp only [l]
+  unfold logSpace2
+  rw [if_neg hcond]
+  refine ⟨by simp, ?_, ?_⟩
+  · simp [show 0 < steps by omega, h0]
+  · simp only [List.getElem?_map, List.getElem?_range (show steps - 1 < steps by omega), Option.map_some]
+    rw [if_neg (by omega)]
+    have : steps - 1 - (steps - 1) = 0 := by omega
+    simp [h0]
+
+/-- … and equally spaced in the logarithm, through the junction of the two halves: given, at the points
+    used, `log (a·exp x) = log a + x` from either end and `log (max/min) = log max − log min`, the
+    logarithm of point `i` is `log min + i·d` with `d = (log max − log min)/(steps−1)`. -/
+theorem logSpace2_log_spacing (exp log : Rat → Rat) (mn mx : Rat) (steps : Nat) (hs : 2 ≤ steps)
+    (hne : mn ≠ mx)
+    (hq : log (mx / mn) = log mx - log mn)
+    (hlo : ∀ k : Nat, k < steps →
+      log (mn * exp ((k : Rat) * ((log mx - log mn) / ((steps : Rat) - 1)))) =
+        log mn + (k : Rat) * ((log mx - log mn) / ((steps : Rat) - 1)))
+    (hhi : ∀ k : Nat, k < steps →
+      log (mx * exp (-1 * (k : Rat) * ((log mx - log mn) / ((steps : Rat) - 1)))) =
+        log mx - (k : Rat) * ((log mx - log mn) / ((steps : Rat) - 1))) :
+    let l := logSpace2 exp log mn mx steps
+    let d := (log mx - log mn) / ((steps : Rat) - 1)
+    (∀ i, i < steps → ∃ x, l[i]? = some x ∧ log x = log mn + (i : Rat) * d) ∧
+    (∀ i, i + 1 < steps → ∃ a b, l[i]? = some a ∧ l[i + 1]? = some b ∧ log b - log a = d) := by
+  intro l d
+  have hcond : ¬ (steps < 2 ∨ mn = mx) := by rintro (h | h); omega; exact hne h
+  have hs1 : ((steps : Rat) - 1) ≠ 0 := by
+    have : (2 : Rat) ≤ (steps : Rat) := by exact_mod_cast hs
+    intro h; linarith
+  have key : ∀ i, i < steps → ∃ x, l[i]? = some x ∧ log x = log mn + (i : Rat) * d := by
+    intro i hi
+    simp only [l]
+    unfold logSpace2
+    rw [if_neg hcond, hq]
+    simp only [List.getElem?_map, List.getElem?_range hi, Option.map_some]
+    by_cases h2 : 2 * i < steps
+    · rw [if_pos h2]
+      exact ⟨_, rfl, hlo i hi⟩
+    · rw [if_neg h2]
+      refine ⟨_, rfl, ?_⟩
+      rw [hhi (steps - 1 - i) (by omega)]
+      have e : ((steps - 1 - i : Nat) : Rat) = (steps : Rat) - 1 - (i : Rat) := by
+        rw [Nat.cast_sub (by omega), Nat.cast_sub (by omega)]; simp
+      rw [e]
+      simp only [d]
+      field_simp
+      ring
+  refine ⟨key, ?_⟩
+  intro i hi
+  obtain ⟨a, ha, la⟩ := key i (by omega)
+  obtain ⟨b, hb, lb⟩ := key (i + 1) hi
+  refine ⟨a, b, ha, hb, ?_⟩
+  rw [la, lb]; push_cast; ring
+
+example : (2 : Nat) ≤ 3 ∧ (1 : Rat) ≠ 4 ∧ exT 0 = 1 ∧ lgT (4 / 1) = lgT 4 - lgT 1 ∧
+    (∀ k : Nat, k < 3 → lgT (1 * exT ((k : Rat) * ((lgT 4 - lgT 1) / (((3 : Nat) : Rat) - 1)))) =
+        lgT 1 + (k : Rat) * ((lgT 4 - lgT 1) / (((3 : Nat) : Rat) - 1))) ∧
+    (∀ k : Nat, k < 3 → lgT (4 * exT (-1 * (k : Rat) * ((lgT 4 - lgT 1) / (((3 : Nat) : Rat) - 1)))) =
+        lgT 4 - (k : Rat) * ((lgT 4 - lgT 1) / (((3 : Nat) : Rat) - 1))) := by
+  refine ⟨by omega, by norm_num, by simp [exT], by norm_num [lgT], ?_, ?_⟩
+  · intro k hk; interval_cases k <;> norm_num [lgT, exT]
+  · intro k hk; interval_cases k <;> norm_num [lgT, exT]
 
 /-! ## 4. Locate_Closest_Location -/
 
